@@ -1,11 +1,13 @@
 #!/bin/sh
-# usage: tools/seedtest.sh <patch.diff> <property id>... : apply the patch to /repo, run the quick checks, undo
+# usage: tools/seedtest.sh <patch.diff> <property id>... : apply the patch to a scratch worktree of /repo (outside /repo and /verif),
+# run the quick checks against it (VERIF_REPO), remove the worktree. /repo itself and /verif/evidence are not touched.
 patch="$1"; shift
-cd /repo || exit 2
-if [ -n "$(git status --porcelain)" ]; then echo "/repo not clean"; exit 2; fi
-git apply "$patch" || { echo "patch does not apply"; exit 2; }
+wt=$(mktemp -d /tmp/seedwt.XXXXXX); rmdir "$wt"
+git -C /repo worktree add -q --detach "$wt" HEAD || exit 2
+( cd "$wt" && git apply "$patch" ) || { echo "patch does not apply"; git -C /repo worktree remove --force "$wt"; exit 2; }
+ev=$(mktemp -d /tmp/seedev.XXXXXX)
 for p in "$@"; do
-  cd /verif && ./check "$p" ${TIER:+--tier $TIER} > /tmp/seedtest.$p.log 2>&1; rc=$?
+  cd /verif && VERIF_REPO="$wt" VERIF_EVIDENCE_DIR="$ev" VERIF_REPLAY_DIR="$ev" ./check "$p" ${TIER:+--tier $TIER} > /tmp/seedtest.$p.log 2>&1; rc=$?
   echo "== $p rc=$rc $(grep -c '^VIOLATION' /tmp/seedtest.$p.log) violation lines"; grep -A1 '^VIOLATION' /tmp/seedtest.$p.log | head -6; grep '^BROKEN' /tmp/seedtest.$p.log | head -3
 done
-cd /repo && git checkout -- . && git clean -fdq -e nothing >/dev/null; git status --porcelain
+git -C /repo worktree remove --force "$wt"; rm -rf "$ev"
